@@ -9,7 +9,7 @@ import RTV.Gen.DtMapsX2
   dtfmt luisdate y m d | luistime h mi s/none | shorttime h mi/none s/none | fmtdate dt | fmttime dt | fmtdt dt
         | topm cps | allpm cps | int cps | fmtd w i          -> cps   or err:ValueError
   gendates noYear ref y m d                                  -> future|past
-  m2t ref <19 group fields> ltohMatched deltamin deltaminnum full oclock am pm lunch night   -> res or err:<Kind>
+  m2t ref variant(1 = `if not hour`, 0 = repaired `is None`) <19 group fields> ltohMatched deltamin deltaminnum full oclock am pm lunch night   -> res or err:<Kind>
   wordhour ref source                                        -> res or none
   m2d culture ref year fullYear month day writtenYear        -> res or err:<Kind>
   res dtype ok timex comment future past                     -> values or none or err:<Kind>
@@ -73,7 +73,7 @@ def hGenDates : Handler
 /-- the 19 group fields + 3 prefix-regex fields + 6 suffix-regex fields of an English `match_to_time` call -/
 def parseTimeCall (fs : List String) : Option (TimeGroups × TimeCfg) :=
   match fs with
-  | [wt, hn, mn, tens, mid, mnt, mmo, maf, mdy, hour, min, sec, amD, ampmD, pmD, iam, ipm, pfx, sfx,
+  | [variant, wt, hn, mn, tens, mid, mnt, mmo, maf, mdy, hour, min, sec, amD, ampmD, pmD, iam, ipm, pfx, sfx,
      ltohM, dm, dmn, full, oclock, am, pm, lunch, night] =>
     let g : TimeGroups := {
       writtenTime := parseCps wt, hourNum := parseCps hn, minNum := parseCps mn, tens := parseCps tens,
@@ -86,6 +86,7 @@ def parseTimeCall (fs : List String) : Option (TimeGroups × TimeCfg) :=
                              lunch := parseBool lunch, night := parseBool night }
     let cfg : TimeCfg := {
       numbers := RTV.Gen.DtMaps.numbers_en
+      zeroHourIsNone := parseBool variant
       adjustByPrefix := enAdjustByPrefix drvUni RTV.Gen.DtMaps.numbers_en ltoh
       adjustBySuffix := fun _ a => .ok (enAdjustBySuffix si a) }
     some (g, cfg)
